@@ -19,8 +19,8 @@ def enc(x):
   if isinstance(x, np.ndarray):
     if x.dtype == object:
       return [enc(v) for v in x.tolist()]
-    a = np.ascontiguousarray(x)
-    return {"__nd__": str(a.dtype), "shape": list(a.shape),
+    a = np.ascontiguousarray(x)   # note: promotes 0-d to 1-d, so keep x.shape
+    return {"__nd__": str(a.dtype), "shape": list(x.shape),
             "b64": base64.b64encode(a.tobytes()).decode("ascii"),
             "preview": _preview(a)}
   if isinstance(x, float):
